@@ -284,7 +284,8 @@ def _mask_width(prog: Program, run: Run) -> None:
 ALTER_SCOPE = ["EncodeState.emplace_atomic_value", "EncodeState.__post_init__",
                "StandardLengthType.__apply_mask", "MinMaxLengthType.encode_into_pdu",
                "LeadingLengthInfoType.encode_into_pdu", "ParamLengthInfoType.encode_into_pdu",
-               "StaticField.encode_into_pdu", "BasicStructure.encode_into_pdu"]
+               "StaticField.encode_into_pdu", "BasicStructure.encode_into_pdu",
+               "DataObjectProperty.encode_into_pdu", "DtcDop.encode_into_pdu"]
 
 
 def _alterations(prog: Program, run: Run) -> None:
